@@ -1,4 +1,4 @@
 from contracts import paths, foundtwice
 
 def build(tier):
-    return dict(targets=paths.targets(tier) + foundtwice.targets(tier), assumptions=[], trusted_base=[])
+    return dict(targets=paths.targets(tier) + foundtwice.targets(tier) + foundtwice.targets_find_module(tier), assumptions=[], trusted_base=[])
